@@ -60,6 +60,7 @@ func shapeTable() []shapeDef {
 }
 
 func c17Shapes(c *Case) {
+	c17Fresh(c)
 	for _, sh := range shapeTable() {
 		body := append(append([]Stmt{}, sh.build...), Pr(V("v")), Pr(S("two"), V("v"), V("v")), ES(CallE(V("printf"), S("%v|\n"), V("v"))))
 		p := &Program{Items: []any{&Rule{Kind: "BEGIN", Body: &Block{Stmts: body}}}}
@@ -75,6 +76,45 @@ func c17Shapes(c *Case) {
 			}
 		}
 	}
+}
+
+// print shows the value as it is NOW: bare print / body-less rules around changes made through methods only, and
+// prints whose arguments call functions that print themselves
+func c17Fresh(c *Case) {
+	d := V("$")
+	run := func(name string, p *Program, doc string) {
+		c.NonTrivial("fresh:" + name)
+		c.Count("print_after_method_only_changes")
+		m2(c, &M2Case{Prog: p, Files: []InFile{{Name: "in.json", Data: []byte(doc)}}, Desc: "print after changes made through methods only: " + name})
+	}
+	for _, meth := range []string{"push", "pop", "popfirst"} {
+		call := func(x Expr) Stmt {
+			if meth == "push" {
+				return ES(Meth(x, meth, N("9")))
+			}
+			return ES(Meth(x, meth))
+		}
+		// $ is an array element / an object with an array member
+		run("element/"+meth, &Program{Items: []any{&Rule{Kind: "pattern", Body: Blk(Pr(), call(d), Pr(), call(d), Pr(), Pr(d))}}}, "[[1, 2], [3], []]")
+		run("member/"+meth, &Program{Items: []any{&Rule{Kind: "pattern", Body: Blk(Pr(), call(Mem(d, "q")), Pr(), Pr(S("explicit"), d), call(Mem(d, "q")), Pr())}}}, `{"n": 1, "q": ["a", "b", "c"]}`)
+		// body-less rules whose patterns change the value through a method
+		cond := Bin("!=", Meth(Mem(d, "q"), meth), S("zz"))
+		if meth == "push" {
+			cond = Bin("!=", Meth(Mem(d, "q"), meth, S("x")), S("zz"))
+		}
+		// (a rule with a body comes first: a body-less pattern directly followed by `{` would take that block as its body)
+		run("bodyless/"+meth, &Program{Items: []any{&Rule{Kind: "pattern", Body: Blk(Pr())}, &Rule{Kind: "pattern", Pattern: Bin("==", Mem(d, "n"), N("1"))}, &Rule{Kind: "pattern", Pattern: cond}, &Rule{Kind: "pattern", Pattern: &BoolLit{V: true}},
+			&Rule{Kind: "END", Body: Blk(Pr(S("end")))}}}, `{"n": 1, "q": ["a", "b", "c"]}`)
+		// through a function and through a second name
+		fn := &Func{Name: "change", Params: []string{"t"}, Body: Blk(call(V("t")))}
+		run("function/"+meth, &Program{Items: []any{fn, &Rule{Kind: "pattern", Body: Blk(Pr(), ES(CallE(V("change"), Mem(d, "q"))), Pr(), asg(V("al"), Mem(d, "q")), call(V("al")), Pr())}}}, `{"q": [1, 2, 3]}`)
+	}
+	// arguments that print
+	note := &Func{Name: "note", Params: []string{"v"}, Body: Blk(Pr(S("visit"), Bin("*", V("v"), N("2")), Arr(V("v"))), &Return{X: V("v")})}
+	run("arguments-that-print", &Program{Items: []any{note, &Rule{Kind: "BEGIN", Body: Blk(Pr(S("warm"), S("up"), Arr(N("1"), N("2"), N("3")), S("a long first line to size any buffer")),
+		Pr(S("total"), CallE(V("note"), N("21")), Arr(N("1"), S("two"))), Pr(CallE(V("note"), N("1")), CallE(V("note"), N("2")), S("end")),
+		Pr(S("x"), Arr(CallE(V("note"), N("3"))), obj1("k", CallE(V("note"), N("4")))))},
+		&Rule{Kind: "pattern", Body: Blk(Pr(S("elem"), d, CallE(V("note"), d), d))}}}, "[5, 6]")
 }
 
 func randAnyDouble(rng *rand.Rand) float64 {
@@ -310,7 +350,7 @@ func c17Cases(tier string) int {
 func init() {
 	register(&Prop{
 		ID: "C17", Level: "exploration",
-		Rule:     "enumerated: 28 shapes built by programs (cycles of length 1-4 through arrays / objects / mixtures, cycles below acyclic and shared prefixes, two cycles, cycles of length 2-3 whose members are each reachable from the printed value by their own route, and 7 shared-but-acyclic shapes that must be printed in full), each printed by print, by a two-argument print and by printf %v; sampled: documents of 3-8 values (doubles from every class incl. random bit patterns, powers of 2 and 10, 2^53+-k, subnormals, +-0; strings; empty containers; nesting to depth 30, width to 50) printed by a body-less rule, bare print, print $, and prints of 3-6 arguments with the value first / in the middle / between empty strings, compared with the reference rendering; laws on the output alone: no exponent, ParseFloat gives back the identical bits, container renderings whose strings need no escaping parse as JSON equal to the value. Non-trivial = number needing > 17 characters or |x| >= 1e21 or < 1e-6, container of depth >= 3, any shape.",
+		Rule:     "enumerated: 28 shapes built by programs (cycles of length 1-4 through arrays / objects / mixtures, cycles below acyclic and shared prefixes, two cycles, cycles of length 2-3 whose members are each reachable from the printed value by their own route, and 7 shared-but-acyclic shapes that must be printed in full), each printed by print, by a two-argument print and by printf %v; 13 programs that print, change the value through push / pop / popfirst only (directly, through a function, through a second name, inside the pattern of a body-less rule) and print again, and prints whose arguments call functions that print; sampled: documents of 3-8 values (doubles from every class incl. random bit patterns, powers of 2 and 10, 2^53+-k, subnormals, +-0; strings; empty containers; nesting to depth 30, width to 50) printed by a body-less rule, bare print, print $, and prints of 3-6 arguments with the value first / in the middle / between empty strings, compared with the reference rendering; laws on the output alone: no exponent, ParseFloat gives back the identical bits, container renderings whose strings need no escaping parse as JSON equal to the value. Non-trivial = number needing > 17 characters or |x| >= 1e21 or < 1e-6, container of depth >= 3, any shape.",
 		NumCases: c17Cases,
 		Run: func(c *Case) {
 			switch {
